@@ -62,6 +62,9 @@ structure Res where
 /-- set union on duplicate-free lists -/
 def unionU (a b : List Nat) : List Nat := a ++ b.filter (fun x => !a.contains x)
 
+/-- union of a list of atom sets, accumulated from the left as the evaluator's loops do -/
+def unionAll (us : List (List Nat)) : List Nat := us.foldl unionU []
+
 /-- `all_used - cu` -/
 def notUsed (all cu : List Nat) : List Nat := all.filter (fun x => !cu.contains x)
 
@@ -73,7 +76,7 @@ def smooth (pl : Val → Val → Val) (W : Weights) (cp : Val) (nu : List Nat) :
 def andRes (rs : List Res) : Res :=
   rs.foldl (fun acc r => ⟨times acc.val r.val, unionU acc.used r.used⟩) ⟨one, []⟩
 
-def allUsed (rs : List Res) : List Nat := rs.foldl (fun u r => unionU u r.used) []
+def allUsed (rs : List Res) : List Nat := unionAll (rs.map (·.used))
 
 /-- disj branch of `compute_weight` (evaluator.py:683-696) -/
 def orRes (pl : Val → Val → Val) (W : Weights) (rs : List Res) : Res :=
@@ -117,20 +120,23 @@ def satAny (m : Nat → Bool) : List NNF → Bool
 end
 
 mutual
-/-- atoms of a formula (duplicate free, in first-occurrence order) -/
+/-- atoms of a formula (duplicate free) -/
 def NNF.vars : NNF → List Nat
   | .tt => []
   | .ff => []
   | .lit l => [l.natAbs]
-  | .and cs => varsL cs
-  | .or cs => varsL cs
-/-- accumulating union, as the evaluator's folds do -/
-def varsL : List NNF → List Nat
+  | .and cs => unionAll (varsL cs)
+  | .or cs => unionAll (varsL cs)
+def varsL : List NNF → List (List Nat)
   | [] => []
-  | c :: cs => unionU c.vars (varsL cs)
+  | c :: cs => c.vars :: varsL cs
 end
 
 def disjointU (a b : List Nat) : Bool := a.all (fun x => !b.contains x)
+
+def pairDisjL : List (List Nat) → Bool
+  | [] => true
+  | u :: us => us.all (disjointU u) && pairDisjL us
 
 mutual
 /-- decomposable: the children of every conjunction mention pairwise disjoint sets of atoms -/
@@ -138,14 +144,11 @@ def NNF.dec : NNF → Bool
   | .tt => true
   | .ff => true
   | .lit _ => true
-  | .and cs => decL cs && pairDisj cs
+  | .and cs => decL cs && pairDisjL (varsL cs)
   | .or cs => decL cs
 def decL : List NNF → Bool
   | [] => true
   | c :: cs => c.dec && decL cs
-def pairDisj : List NNF → Bool
-  | [] => true
-  | c :: cs => disjointU c.vars (varsL cs) && pairDisj cs
 end
 
 /-! ### unfolding a node array (children refer to earlier nodes) -/
